@@ -36,7 +36,8 @@ ASSUMPTIONS = ['a cut that loses only the final newline of the report loses '
 FLOORS = {'crash_cases': 40, 'cut_offsets': 150, 'fake_wellformed': 60,
           'fake_malformed': 40, 'big_volume_cases': 12, 'spawn_failures': 8,
           'emulator_validated': 4, 'names_compared': 2000,
-          'chatter_threads_released': 8}
+          'chatter_threads_released': 8,
+          'banner_print_raised_in_worker_thread': 3}
 BATCH_TIMEOUT = 900
 
 HERE = os.path.dirname(os.path.abspath(__file__))
@@ -281,14 +282,16 @@ NAME_POOL = ['test_x (pkg.tests.T.test_x)', 'test_é (pkg.T.test_é)',
              'test (m.T) (i=3, j=\'q\')', 'Doctest: pkg.mod.func']
 
 
-def gen_fake_layer(rng, kind):
+def gen_fake_layer(rng, kind, ascii_names=False):
     """Returns (steps, exit/signal dict, expectation dict)."""
     nf = rng.choice([0, 0, 1, 2, 3])
     ne = rng.choice([0, 0, 1, 2])
     if kind == 'many':
         nf, ne = rng.choice([(1000, 0), (0, 1000), (2500, 2500), (5000, 1)])
-    fails = ['%s #f%d' % (rng.choice(NAME_POOL), i) for i in range(nf)]
-    errs = ['%s #e%d' % (rng.choice(NAME_POOL), i) for i in range(ne)]
+    pool = [n for n in NAME_POOL if n.isascii()] if ascii_names \
+        else NAME_POOL
+    fails = ['%s #f%d' % (rng.choice(pool), i) for i in range(nf)]
+    errs = ['%s #e%d' % (rng.choice(pool), i) for i in range(ne)]
     ran = nf + ne + rng.randint(0, 50)
     nskip = rng.choice([0, 0, 2, 17])
     report = emulate_report(ran, fails, errs, nskip)
@@ -327,9 +330,18 @@ def gen_fake_layer(rng, kind):
         # an unterminated line on the real stderr right before the report
         pre = rng.choice(['no newline at end', 'warning: x ', '12'])
         exp['glued'] = True
+    elif kind == 'no-report-nonascii':
+        report = rng.choice(['Speicherzugriffsfehler \u2013 caf\xe9\n',
+                             '\u81f4\u547d\u9519\u8bef: core dumped\n'])
+        exp['complete'] = False
+        exp['kind'] = 'no-report'
+        end = rng.choice([{'exit': 0}, {'exit': 3}, {'signal': 9},
+                          {'signal': 11}])
     elif kind == 'no-report':
         report = rng.choice(['', 'segmentation fault\n', 'x y z\n', '1 2\n',
-                             '1 2 3 4\n'])
+                             '1 2 3 4\n',
+                             'Speicherzugriffsfehler \u2013 caf\xe9\n',
+                             '\u81f4\u547d\u9519\u8bef: core dumped\n'])
         exp['complete'] = False
         end = rng.choice([{'exit': 0}, {'exit': 3}, {'signal': 9},
                           {'signal': 11}])
@@ -508,9 +520,22 @@ def run_fake(case, ctx):
     try:
         scenario = {}
         exps = {}
+        # three in ten runs: the parent's own stdout / stderr have a
+        # narrow strict encoding (run_internal() entered by an embedding
+        # program under the C locale): printing a banner that quotes what
+        # the child wrote raises - in the layer's worker thread.  Names are
+        # kept ASCII there, so nothing the main thread prints can raise.
+        strict = rng.random() < 0.3
         for i in range(k):
             kind = rng.choice(FAKE_KINDS)
-            steps, end, exp = gen_fake_layer(rng, kind)
+            if strict:
+                # (kinds whose names come out of the pool)
+                kind = rng.choice(['no-report', 'no-report', 'leading-noise',
+                                   'trailing-noise', 'fewer-names',
+                                   'unterminated-name', 'header-variants'])
+            if strict and i == 0:
+                kind = 'no-report-nonascii'
+            steps, end, exp = gen_fake_layer(rng, kind, ascii_names=strict)
             d = {'steps': steps}
             d.update(end)
             scenario['%s.L%d' % (lm, i)] = d
@@ -522,8 +547,14 @@ def run_fake(case, ctx):
         w = common.run_world(spec, None, {'processes': N,
                                           'verbose': rng.choice([1, 1, 2])},
                              root=root, script_parts=[FAKE],
-                             env_extra={'ZTR_FAKE_SCENARIO': sp})
-        judge_fake(ctx, w, exps, lm, 'fake')
+                             env_extra={'ZTR_FAKE_SCENARIO': sp,
+                                        'ZTR_STRICT_STDOUT':
+                                        '1' if strict else None})
+        if strict:
+            ctx.C('strict_parent_streams_runs')
+            if 'UnicodeEncodeError' in w.out:
+                ctx.C('banner_print_raised_in_worker_thread')
+        judge_fake(ctx, w, exps, lm, 'fake-strict' if strict else 'fake')
         sigs.append(['fake', sorted(e['kind'] for e in exps.values()), N])
     finally:
         vworld.destroy(root)
